@@ -228,6 +228,28 @@ Theorem C02_full_model_converges_and_goes_quiet :
 Proof. exact full_model_converges_and_goes_quiet. Qed.
 Print Assumptions C02_full_model_converges_and_goes_quiet.
 
+(* (3i) ... and the STORED status of those worlds says status.replicas = status.readyReplicas = spec.replicas *)
+Theorem C02_full_model_stored_status :
+  forall hashes s0 upd cnt r limit slots,
+    0 <= cnt <= max_i32 + 1 -> s_deleting s0 = false -> NoDup (s_claims s0) -> s_rolling s0 <> None ->
+    get_paused (s_pause s0) = false -> s_selector s0 = SelOk ->
+    s_replicas s0 = Some r -> extend r (get_slots (s_slots s0)) = (cnt, slots) -> s_rhl s0 = Some limit ->
+    forall (Wd : nat -> world), (forall k, Wd (S k) = env_round hashes (Wd k)) ->
+    forall st0 rv0 rcur0 rupd coll,
+    w_set (Wd O) = Some (set_status s0 st0 rv0) ->
+    wf s0 cnt slots (w_pods (Wd O)) -> NoDup (w_pods (Wd O)) -> all_claimed s0 (w_pods (Wd O)) ->
+    (forall j, in_range cnt slots j = true -> claims_cached s0 (Wd O) j) ->
+    nothing_to_adopt (Wd O) s0 = true ->
+    gsr_value hashes (set_status s0 st0 rv0) (sort_revs (lrevs (Wd O) s0)) = Some (rcur0, rupd, coll) ->
+    upd = rinfo_of rupd ->
+    Z.of_nat (length (sort_revs (lrevs (Wd O) s0))) <= limit ->
+    0 <= r -> r + Z.of_nat (length (get_slots (s_slots s0))) <= max_i32 ->
+    exists k, Z.of_nat k <= mu s0 upd cnt slots (w_pods (Wd O)) + 1
+      /\ forall m, (k <= m)%nat ->
+           exists s, w_set (Wd m) = Some s /\ st_replicas (s_status s) = r /\ st_ready (s_status s) = r.
+Proof. exact full_model_stored_status. Qed.
+Print Assumptions C02_full_model_stored_status.
+
 (* non-vacuity of (3e)-(3g): a concrete world whose fair rounds are all regular (RoundExample.v; rx_converges_closed
    instantiates (3g) from the initial world alone): an outdated pod, a pod
    in a delete slot, a failed pod, ordinal 3 vacant; the theorem gives convergence within mu = 6 rounds *)
